@@ -559,3 +559,12 @@ UNITS += [_u for _u in STOP_UNITS if _u.name != "stop.suspend_block"]
 for _k in ("trusted_base", "assumptions", "not_decided"):
     META[_k] = list(META.get(_k, [])) + list(STOP_META.get(_k, []))
 STATIC = list(globals().get("STATIC", [])) + list(STOP_STATIC)
+
+
+# ---- one iteration of the scheduling loop's idle path (when does a worker told to suspend actually suspend; when may it leave):
+# ---- fourth sub-agent, written after seeded change C19-4 was missed -------------------------------------------------------------
+exec(open("/verif/specs/C19/loop_spec.py").read())
+UNITS += LOOP_UNITS
+for _k in ("trusted_base", "assumptions", "not_decided"):
+    META[_k] = list(META.get(_k, [])) + list(LOOP_META.get(_k, []))
+STATIC = list(globals().get("STATIC", [])) + list(LOOP_STATIC)
